@@ -161,31 +161,41 @@ def _exact_trig(x):
 
 
 class SAngle:
-    """an angle known only through (sin, cos); closed under negation and
-    multiplication by a symbolic +-1; enough for rotate_vector_around_an_axis"""
-    __slots__ = ('s', 'c')
+    """an angle known through (sin, cos); closed under negation and
+    multiplication by a symbolic +-1; enough for rotate_vector_around_an_axis.
+    It also knows how many whole turns k it is away from its principal value
+    phi (value = phi + 2*k*pi, phi in (-pi, pi], or [-pi, pi) after a
+    negation), so that code which compares the angle itself with 0 or +-pi
+    (theta < 0, theta > math.pi) is decided from the signs of sin and cos --
+    no extra solver variables."""
+    __slots__ = ('s', 'c', 'k', 'low_closed')
 
-    def __init__(self, s, c):
+    def __init__(self, s, c, k=0, low_closed=False):
         self.s = s
         self.c = c
+        self.k = k
+        self.low_closed = low_closed
 
     @staticmethod
-    def symbolic(ctx, name):
+    def symbolic(ctx, name, turns=None):
         s = ctx.real(name + '_sin', -1, 1)
         c = ctx.real(name + '_cos', -1, 1)
         ctx.assume(lift_real(s) * lift_real(s) + lift_real(c) * lift_real(c) == 1)
-        return SAngle(s, c)
+        k = 0
+        if turns is not None:
+            k = ctx.choice(name + '_turns', list(turns))
+        return SAngle(s, c, k)
 
     @staticmethod
     def of_float(x):
         # exact values for the multiples of pi/2 that the code uses literally
         for k, (s, c) in {0: (0, 1), 1: (1, 0), 2: (0, -1), -1: (-1, 0), -2: (0, -1)}.items():
             if x == k * _math.pi / 2:
-                return SAngle(s, c)
+                return SAngle(s, c, 0, low_closed=(k == -2))
         return None
 
     def __neg__(self):
-        return SAngle(-self.s, self.c)
+        return SAngle(-self.s, self.c, -self.k, not self.low_closed)
 
     def __mul__(self, k):
         # k is +-1 (possibly symbolic): fork on its sign
@@ -202,8 +212,86 @@ class SAngle:
         raise Unsupported("SAngle * %r" % (k,))
     __rmul__ = __mul__
 
+    # -- comparisons of the numeric value with 0 and +-pi --------------------------------------------
+    def _half_turn(self):
+        """the principal value is the half turn (pi, or -pi when the interval is closed below)"""
+        return z3.And(lift_real(self.s) == 0, lift_real(self.c) < 0)
+
+    def _lt(self, x):
+        """value < x for x in {0, pi, -pi} as a z3 Bool"""
+        S = lift_real(self.s)
+        T, F = z3.BoolVal(True), z3.BoolVal(False)
+        half = self._half_turn()
+        if x == 0:
+            if self.k > 0:
+                return F          # phi + 2k*pi > -pi + 2*pi > 0
+            if self.k < 0:
+                return T          # phi - 2|k|*pi <= pi - 2*pi < 0
+            return z3.Or(S < 0, z3.And(half, z3.BoolVal(self.low_closed)))
+        if x == _math.pi:
+            # value = phi + 2k*pi < pi
+            if self.k > 0:
+                return F
+            if self.k < 0:
+                return T
+            return z3.Not(z3.And(half, z3.BoolVal(not self.low_closed)))
+        if x == -_math.pi:
+            if self.k > 0:
+                return F
+            if self.k < 0:
+                # phi - 2pi < -pi  <=>  phi < pi
+                return z3.Not(z3.And(half, z3.BoolVal(not self.low_closed))) if self.k == -1 else T
+            return F
+        raise Unsupported("comparison of an SAngle with %r (only 0 and +-pi are modelled)" % (x,))
+
+    def _eq(self, x):
+        S, C = lift_real(self.s), lift_real(self.c)
+        F = z3.BoolVal(False)
+        half = self._half_turn()
+        if x == 0:
+            return z3.And(S == 0, C > 0) if self.k == 0 else F
+        if x == _math.pi:
+            if self.k == 0:
+                return z3.And(half, z3.BoolVal(not self.low_closed))
+            if self.k == 1:
+                return z3.And(half, z3.BoolVal(self.low_closed))
+            return F
+        if x == -_math.pi:
+            if self.k == 0:
+                return z3.And(half, z3.BoolVal(self.low_closed))
+            if self.k == -1:
+                return z3.And(half, z3.BoolVal(not self.low_closed))
+            return F
+        raise Unsupported("comparison of an SAngle with %r (only 0 and +-pi are modelled)" % (x,))
+
+    def _num(self, o):
+        if isinstance(o, SAngle) or is_sym(o):
+            raise Unsupported("comparison of an SAngle with a symbolic value")
+        return o
+
+    def __lt__(self, o):
+        return SBool(self._lt(self._num(o)))
+
+    def __le__(self, o):
+        o = self._num(o)
+        return SBool(z3.Or(self._lt(o), self._eq(o)))
+
+    def __gt__(self, o):
+        o = self._num(o)
+        return SBool(z3.Not(z3.Or(self._lt(o), self._eq(o))))
+
+    def __ge__(self, o):
+        return SBool(z3.Not(self._lt(self._num(o))))
+
     def __eq__(self, o):
-        raise Unsupported("comparison of SAngle")
+        if isinstance(o, (int, float)):
+            return SBool(self._eq(o))
+        raise Unsupported("equality of SAngle with %r" % (o,))
+
+    def __ne__(self, o):
+        if isinstance(o, (int, float)):
+            return SBool(z3.Not(self._eq(o)))
+        raise Unsupported("equality of SAngle with %r" % (o,))
     __hash__ = None
 
 
